@@ -301,6 +301,40 @@ func (r *R) Exec(ctx sdk.Context, line string) (sdk.Context, string) {
 		id := tmbytes.HexBytes(unhex(a["ctx"]))
 		class, _ := hx.Try(ctx, func(c sdk.Context) error { r.env.Random.HandlerStateChanged(c, id, "insufficient balances"); return nil })
 		return ctx, class + " " + r.State(ctx)
+	case "export":
+		// the real ExportGenesis document (groups in ascending uint64 height order, requests in the
+		// order the export appended them) and the verdict of the real ValidateGenesis
+		gs := randommod.ExportGenesis(ctx, r.env.Random)
+		v := "ok"
+		if err := randomtypes.ValidateGenesis(*gs); err != nil {
+			v = "err"
+		}
+		return ctx, fmt.Sprintf("ok validate=%s gen=%s", v, genesisLine(gs))
+	case "reimport", "reimport_zero":
+		// wipe the module store and run the real InitGenesis on the module's own export
+		// (reimport_zero: after the real PrepForZeroHeightGenesis; the new chain is at height 1)
+		class, _ := hx.Try(ctx, func(c sdk.Context) error {
+			if f[1] == "reimport_zero" {
+				randommod.PrepForZeroHeightGenesis(c, r.env.Random)
+			}
+			gs := randommod.ExportGenesis(c, r.env.Random)
+			st := r.store(c)
+			it := storetypes.KVStorePrefixIterator(st, nil)
+			var keys [][]byte
+			for ; it.Valid(); it.Next() {
+				keys = append(keys, append([]byte{}, it.Key()...))
+			}
+			it.Close()
+			for _, k := range keys {
+				st.Delete(k)
+			}
+			randommod.InitGenesis(c, r.env.Random, *gs)
+			return nil
+		})
+		if class == hx.OK && f[1] == "reimport_zero" {
+			ctx = header(ctx, 1, ctx.BlockTime().Unix(), ctx.BlockHeader().AppHash)
+		}
+		return ctx, class + " " + r.State(ctx)
 	case "svc_break":
 		// the environment changes under a still pending oracle request: its service context is
 		// removed, or is no longer paused, so that StartRequestContext will fail when it falls due
@@ -371,6 +405,33 @@ func (r *R) Exec(ctx sdk.Context, line string) (sdk.Context, string) {
 	}
 	hx.Fail("unknown op %q", line)
 	return ctx, ""
+}
+
+// genesisLine renders the exported document: groups by ascending uint64(height), each group's
+// requests in the document's own order.
+func genesisLine(gs *randomtypes.GenesisState) string {
+	type grp struct {
+		key uint64
+		h   string
+	}
+	var gsorted []grp
+	for h := range gs.PendingRandomRequests {
+		v, err := strconv.ParseInt(h, 10, 64)
+		if err != nil {
+			hx.Fail("exported height %q", h)
+		}
+		gsorted = append(gsorted, grp{uint64(v), h})
+	}
+	sort.Slice(gsorted, func(i, j int) bool { return gsorted[i].key < gsorted[j].key })
+	var out []string
+	for _, g := range gsorted {
+		var rs []string
+		for _, q := range gs.PendingRandomRequests[g.h].Requests {
+			rs = append(rs, showReq(q))
+		}
+		out = append(out, g.h+"["+strings.Join(rs, ";")+"]")
+	}
+	return dash(strings.Join(out, "|"))
 }
 
 // activeRequest returns the id (hex) of the first active request of a context's current batch.
@@ -477,12 +538,22 @@ func (r *R) genConsumer(g *hx.Rng) string {
 }
 
 func (r *R) Gen(ctx sdk.Context, g *hx.Rng) string {
-	kind := g.Pick(30, 40, 8, 7, 2, 8, 8, 3, 2)
+	kind := g.Pick(30, 40, 8, 7, 2, 8, 8, 3, 2, 3)
 	if kind == 0 && !r.ended {
 		// a block ends with the service module's EndBlocker before the next one begins
 		return r.genSvcEndBlock(ctx)
 	}
 	switch kind {
+	case 9:
+		// genesis round trips of the current state
+		switch g.Pick(3, 2, 1) {
+		case 0:
+			return "random export"
+		case 1:
+			return "random reimport"
+		default:
+			return "random reimport_zero"
+		}
 	case 7:
 		// break the service context of an oracle request that is still waiting in the queue
 		var cs []string
